@@ -1,5 +1,7 @@
 pub mod common;
 pub mod c01;
+pub mod c02;
+pub mod comp;
 pub mod c03;
 pub mod c04;
 pub mod c05;
@@ -7,6 +9,7 @@ pub mod c06;
 pub mod c07;
 pub mod c08;
 pub mod c09;
+pub mod c10;
 
 use crate::ctx::Ctx;
 use crate::report::Report;
@@ -15,6 +18,7 @@ use crate::report::Report;
 pub fn dispatch(ctx: &Ctx, rep: &mut Report) -> bool {
     match ctx.prop.as_str() {
         "C01" => c01::run(ctx, rep),
+        "C02" => c02::run(ctx, rep),
         "C03" => c03::run(ctx, rep),
         "C04" => c04::run(ctx, rep),
         "C05" => c05::run(ctx, rep),
@@ -22,6 +26,7 @@ pub fn dispatch(ctx: &Ctx, rep: &mut Report) -> bool {
         "C07" => c07::run(ctx, rep),
         "C08" => c08::run(ctx, rep),
         "C09" => c09::run(ctx, rep),
+        "C10" => c10::run(ctx, rep),
         _ => return false,
     }
     true
